@@ -65,6 +65,14 @@ def plan(tier, seed):
                 for is_async in (False, True):
                     jobs.append((d, [("exnew", 1, 3, -1, -1, -1, m([a, b]), 1), ("exrun", 3, full, 1), ("restart", 1, 1), ("restart", 1, 1, -1, -1, -1, m([a, b])),
                                      ("call", 1, full)], is_async, "thread"))
+        if any(k == "setup" for k in D["kind"]) and len(nonsetup) >= 1:
+            # setup() of an executor built with cache_deps_of, then its run, then a call of the DAG: on both flavours
+            full = [10 + p for p in range(D["np"])]
+            m = lambda S: sum(1 << (k - 1) for k in S)  # noqa: E731
+            for k in nonsetup[:4]:
+                for is_async in (False, True):
+                    jobs.append((d, [("exnew", 1, 3, -1, -1, -1, m([k]), 1), ("exsetup", 3), ("exrun", 3, full, 1), ("call", 1, full)], is_async, "thread"))
+                    jobs.append((d, [("exnew", 1, 3, -1, -1, -1, m([k]), 1), ("exsetup", 3), ("call", 1, full)], is_async, "thread"))
         readers = [k for k in range(1, D["n"] + 1) if D["argof"][k - 1]]
         if readers:
             # a caching run that leaves a node that reads a DAG input (and what depends on it) out of the file, then a restart
@@ -276,6 +284,11 @@ def run(tier, seed, log=common.say):
             if kept.get(x["c"], 0) < 4:
                 kept[x["c"]] = kept.get(x["c"], 0) + 1
                 viols.append({"clause": x["c"], "i": x["i"], "d": t["d"], "ops": t["ops"], "async": t["async"], "sres": t.get("sres", "thread"), "ev": t["ev"]})
+    wedged = [r for r in res if r.get("wedged")]
+    if wedged:
+        viol_counts["C09.hang"] = viol_counts.get("C09.hang", 0) + 1
+        viols.append({"clause": "C09.hang", "i": 1, "d": wedged[0]["d"], "ops": wedged[0]["ops"], "async": wedged[0]["async"], "sres": wedged[0].get("sres", "thread"),
+                      "ev": [{"op": "one of %d histories run together, the first of which is given" % len(wedged)}], "wedged": [[w["d"], w["ops"], w["async"]] for w in wedged[:30]]})
     out = {"engine": "E4", "tier": tier, "seed": seed, "histories": len(jobs), "distinct_traces": len(traces),
            "events": sum(len(t["ev"]) for t in traces), "skipped_after_hang": skipped, "harness_errors": [h["ev"][-1] for h in herr][:5],
            "harness_error_count": len(herr), "validated": len(verdicts), "states": states, "transitions": trans,
@@ -305,6 +318,12 @@ def report(prop, res):
         if v["clause"].split(".")[0] != prop:
             continue
         e = v["ev"][v["i"] - 1]
+        if v.get("wedged"):
+            viols.append({"sig": {"clause": v["clause"]},
+                          "what": f'{v["clause"]}: an operation of one of {len(v["wedged"])} histories run in one worker process never returned, and the '
+                                  "time-out raised in it did not end it (the process was killed)",
+                          "replay": {"engine": "E4", "property": prop, "clause": v["clause"], "wedged": v["wedged"]}})
+            continue
         viols.append({"sig": {"clause": v["clause"]},
                       "what": f'{v["clause"]} at operation {v["i"]} ({e["op"]}) of history {[o[0] for o in v["ops"]]} on template {v["d"]}; '
                               f'{res["viol_counts"][v["clause"]]} such events in this run',
@@ -322,6 +341,8 @@ def report(prop, res):
         mach.append(f'validated {res["validated"]} of {res["distinct_traces"]} histories')
     if res["harness_error_count"]:
         mach.append(f'harness errors: {res["harness_errors"][:2]}')
+    if res.get("skipped_after_hang") and not viols:
+        mach.append(f'{res["skipped_after_hang"]} histories were not run because operations kept hanging (C09): no verdict for {prop} on what was left out')
     nontriv = res["counters"].get(NONTRIVIAL[prop], 0)
     if nontriv < 2:
         mach.append(f"vacuous: {nontriv} non-trivial histories for {prop}")
@@ -353,6 +374,21 @@ def report(prop, res):
 
 def replay(payload, log=common.say):
     import e4_driver as ed
+
+    if payload.get("wedged"):
+        # histories of a worker process that never came back: run them again in a process of their own, under a time limit
+        import multiprocessing as mp
+        jobs = [(d - 1, ops, a) for d, ops, a in payload["wedged"]]
+        pool = mp.get_context("fork").Pool(1)
+        try:
+            pool.apply_async(ed._work, (jobs,)).get(timeout=(len(jobs) + 4) * ed.OP_TIMEOUT)
+            log("replay: every history returned on the current tree")
+            return 0
+        except mp.TimeoutError:
+            log("replay: property violated again (the histories did not return)")
+            return 1
+        finally:
+            pool.terminate()
 
     ev = ed.run_history(ed.TEMPLATES[payload["d"] - 1], payload["ops"], payload.get("async", False), payload.get("sres", "thread"))
     recs = [{"d": payload["d"], "ops": payload["ops"], "async": bool(payload.get("async", False)), "sres": payload.get("sres", "thread"), "ev": ev}]
